@@ -111,6 +111,8 @@ def generate(prop, seed, tier='quick'):
         op = gen.gen_op(rng, kind, len(pool), opts)
         op.pop('from_key', None)
         op.setdefault('c', rng.randrange(len(pool)))
+        if op.get('via') == 'offset':
+            op['via'] = 'stream' if kind == 'add_loose' else 'bytesio'  # the in-flight set is predicted from the pool contents
         if kind == 'add_pack' and rng.random() < 0.1 and not any(o.get('mass') for o in pops):
             # one call crossing the library's 1000-row granularity (at most one per case: with pack_size_target=1 every
             # object is a pack file of its own, which the backup then copies one by one)
@@ -144,7 +146,7 @@ def generate(prop, seed, tier='quick'):
         'pool': pool,
         'ops': pre_ops,
         'actors': actors,
-        'policy': gen_policy(rng),
+        'policy': gen_policy(rng, freeze_roles=('packer', 'packer', 'packer', 'backup', 'backup', 'writer')),
         'decisions': None,
     }
 
@@ -305,7 +307,7 @@ def execute(case):  # pylint: disable=too-many-locals,too-many-statements,too-ma
                     elif spec['role'] == 'reader':
                         sched.spawn(spec['name'], reader_main(world, side, shared, spec, lib), role='reader')
                     else:
-                        sched.spawn(spec['name'], backup_main(spec), role='reader')
+                        sched.spawn(spec['name'], backup_main(spec), role='backup')
 
                 def hook(event):
                     _, actor, kind, _, _ = event
